@@ -74,3 +74,24 @@ Proof.
   split; [assumption|]. split; [assumption|]. intros He. rewrite (H3 He). apply revolve_steps_gw; assumption.
 Qed.
 Print Assumptions revolve_forward_total_gw.
+
+(* C02 / C09 / C17: the Revolve stream is complete -- there is a request count K after which the schedule is exhausted, having
+   carried out exactly TC N s forward steps *)
+Theorem revolve_terminates tj N ram disk uf ub wd rd : 1 <= N -> 0 <= ram -> (2 <= N -> 1 <= ram) -> 0 < uf ->
+  exists L K, sequence KRevolve N ram disk uf ub wd rd = Ok L /\ forall k, (K <= k)%nat ->
+  let '(s', m, ls) := run_ops (rev_xparams N ram) {| ob := ORevF KRevolve N ram disk (init_r L); started := false |} mon0 (repeat Next k) in
+  mon_ok m /\ no_raise ls /\ is_exhausted s' = true /\ fwd_total (cnt (mx m)) = Inst.TC tj N ram.
+Proof.
+  intros HN Hram Hram1 Huf.
+  destruct (revolve_top_total (N - 1) ram uf ub ltac:(lia) Hram ltac:(lia)) as [L HL].
+  pose proof HL as HL'. unfold revolve_top in HL'. destruct (get_opt_0_table (N - 1) ram uf ub) as [t|] eqn:Et; [|discriminate]. cbn [bind] in HL'.
+  destruct (revolve_g _ _ _ _ _ _ HL') as (L0 & HG & ->).
+  assert (HB : RevBlk.Blk true 0 (N - 1) ram L0) by (apply (RevGen.revolve_blk _ _ _ _ _ _ HG); lia).
+  exists (map inj L0), (2 * length L0 + 2)%nat. split; [exact HL|]. intros k Hk.
+  pose proof (revolve_cfg_terminates N ram disk L0 k HN Hram Hram1 HB ltac:(lia)) as Hterm.
+  destruct (revolve_forward_total_gw tj N ram disk uf ub wd rd k HN Hram Hram1 Huf) as (L' & HL2 & Hrun).
+  change (sequence KRevolve N ram disk uf ub wd rd) with (revolve_top (N - 1) ram uf ub) in HL2. rewrite HL in HL2. injection HL2 as <-.
+  destruct (run_ops (rev_xparams N ram) _ mon0 (repeat Next k)) as [[s' m'] ls]. cbn [fst] in Hterm. destruct Hrun as (H1 & H2 & H3).
+  repeat split; auto.
+Qed.
+Print Assumptions revolve_terminates.
